@@ -445,6 +445,7 @@ type Contract struct {
 	CallSites  map[string][]*Clause // callee name -> extra obligations at each call in this function
 	CallSiteEns  map[string][]*Clause // callee name -> facts assumed after each call in this function (trusted)
 	CallSiteMods map[string][]*Clause // callee name -> locations havocked at each call in this function (trusted)
+	NoWait      []*Clause           // func block: channels the function must not wait on or poll (select, receive)
 	Cancellable []*Clause           // func block: channels one of which every blocking wait of the function also waits on
 	AsName     string               // `option as <functype>`: the function is an instance of that function type ...
 	AsOnly     bool                 // ... and its contract says nothing else
@@ -452,6 +453,7 @@ type Contract struct {
 	NotImpl    []string             // ... and must not implement
 	Layouts    []WireLayout         // wire block: the field sequence of a message struct per protocol version
 	CloseOnly  []string             // type block: channel fields that are never sent on, only closed
+	FieldRead  map[string][]*Clause // type block: obligations on every load of a field in the function under verification (self)
 	FieldWrite map[string][]*Clause // type block: two-state obligations on every store to a field (self, was, now)
 	AssumeAt   []*Clause            // trusted facts assumed right after the statement whose source line contains Label
 	LockAssume []*Clause            // assumed right after every Lock in this function (token arguments); listed as assumptions
@@ -471,7 +473,7 @@ var clauseKeywords = map[string]bool{
 	"property": true, "mode": true, "requires": true, "ensures": true, "modifies": true, "reads": true,
 	"loop": true, "assert": true, "pure": true, "inline": true, "trusted": true, "unproved": true,
 	"assume": true, "option": true, "expect": true, "def": true, "unfold": true, "macro": true, "guards": true,
-	"invariant": true, "rely": true, "ghost": true, "replay": true, "package": true, "end": true, "ghostfield": true, "let": true, "callsite": true, "closeonly": true, "fieldwrite": true, "layout": true, "implements": true, "notimplements": true, "cancellable": true, "lockassume": true, "ghostdef": true, "assumeat": true, "trust-ensures": true,
+	"invariant": true, "rely": true, "ghost": true, "replay": true, "package": true, "end": true, "ghostfield": true, "let": true, "callsite": true, "closeonly": true, "fieldwrite": true, "fieldread": true, "layout": true, "implements": true, "notimplements": true, "cancellable": true, "nowait": true, "lockassume": true, "ghostdef": true, "assumeat": true, "trust-ensures": true,
 }
 
 func firstWord(s string) (string, string) {
@@ -707,6 +709,13 @@ func ParseContractFile(path string, pkg string) (*ContractFile, error) {
 				}
 			}
 			cur.Layouts = append(cur.Layouts, WireLayout{Lo: lo, Hi: hi, Fields: fs, Line: l.line})
+		case "nowait":
+			// nowait <chan expr> : no select (blocking or not) and no receive of the function involves that channel
+			cl, err := mkClause("nowait", rest, l.line)
+			if err != nil {
+				return nil, err
+			}
+			cur.NoWait = append(cur.NoWait, cl)
 		case "cancellable":
 			// cancellable <chan expr> : every blocking channel wait of the function (select, receive, send) can also be ended by
 			// that channel (several clauses: by one of them)
@@ -715,6 +724,22 @@ func ParseContractFile(path string, pkg string) (*ContractFile, error) {
 				return nil, err
 			}
 			cur.Cancellable = append(cur.Cancellable, cl)
+		case "fieldread":
+			// fieldread <field> requires <expr over self> : obligation at every load of that field by the function under
+			// verification itself (not by the closures it runs)
+			fld, r2 := firstWord(rest)
+			kw, r3 := firstWord(r2)
+			if kw != "requires" || fld == "" {
+				return nil, fail("fieldread <field> requires <expr>")
+			}
+			cl, err := mkClause("fieldread", r3, l.line)
+			if err != nil {
+				return nil, err
+			}
+			if cur.FieldRead == nil {
+				cur.FieldRead = map[string][]*Clause{}
+			}
+			cur.FieldRead[fld] = append(cur.FieldRead[fld], cl)
 		case "fieldwrite":
 			// fieldwrite <field> requires <expr over self, was, now> : obligation at every store to that field
 			fld, r2 := firstWord(rest)
